@@ -16,6 +16,7 @@ from collections import Counter
 from common import LEAN, Driver, Report, check_proofs, proof_coverage, rng
 from gen import Cfg, G, required_version
 from pipeline import Case, exec_diff, load_corpus, replay_case
+from recipes import Program
 
 PROOF_MODULES = ["PyTealV.Proofs.Sim", "PyTealV.Proofs.ShapeMach", "PyTealV.Proofs.ShapeOps", "PyTealV.Proofs.ShapeSem", "PyTealV.Proofs.ShapeGen", "PyTealV.Proofs.Shape", "PyTealV.Proofs.C01",
                  # renaming invariance of the source semantics and `compile_correct_original` (the theorem about the ORIGINAL tree)
@@ -116,6 +117,48 @@ def run(tier: str) -> int:
                 rep.violation(f"translation validation failed ({verdict[:300]}); no differing context found in {cfg['search_ctx']} runs",
                               case.replay_dict(None, {"validate": verdict, "correspondence": "Check.closed / findSim on model graph vs real TEAL"}),
                               no_input=True)
+    # ---- the same question for the `assembleConstants=True` spelling of the program (constants referenced through
+    # intcblock / bytecblock): generated programs, and directed ones whose integer constants are ranked so that small repeated
+    # ones (pushed, not put into the block) sit between block members
+    asm_cases = []
+    for k in range(cfg.get("nasm", 30)):
+        ra = rng(f"c01-asm-{k}")
+        if k % 2 == 0:
+            big = ra.sample([128, 1000, 5000, 70000, 2 ** 32, 2 ** 63, 2 ** 64 - 1, 255, 256], ra.choice([1, 2, 3]))
+            small = ra.sample(range(0, 128), ra.choice([1, 2]))
+            top = ra.sample([0, 1, 2, 3, 7, 200, 300, 4096, 99], 4)
+            uses = [(c, 3) for c in top] + [(c, 2) for c in small] + [(c, 2) for c in big]
+            if ra.random() < 0.5:
+                ra.shuffle(uses)
+            terms = [c for c, n in uses for _ in range(n)]
+            if ra.random() < 0.5:
+                ra.shuffle(terms)
+            # every constant is observable: logged (v >= 5) or folded into the verdict
+            stmts = [("op", "PopU", [("op", "Add2", [("int", c), ("txn", "Fee")])]) for c in terms[:-1]]
+            acc = ("int", terms[-1])
+            for c in terms[:6]:
+                acc = ("op", "BitwiseXor", [acc, ("int", c)])
+            pa = Program("app", ("seq", [("op", "Log", [("op", "Itob", [("int", c)])]) for c in terms] + stmts + [("ret", ("op", "EqU", [acc, ("txn", "Fee")]))]))
+            va = ra.choice([5, 6, 8, 10])
+        else:
+            va = ra.choice([3, 4, 5, 6, 7, 8, 9, 10])
+            ga = G(ra, Cfg(mode="app", version=va, subs=0, max_depth=ra.choice([3, 4, 5]), max_stmts=ra.choice([4, 6, 8])))
+            pa = ga.program()
+            if required_version(pa.main) > va:
+                continue
+        asm_cases.append((pa, va))
+    for pa, va in asm_cases:
+        case = Case(d, pa, va, assemble=True, **opts_for(va))
+        stats[f"assembled:compile:{case.res[0]}"] += 1
+        if not case.ok:
+            continue
+        distinct.add(case.teal)
+        bad = exec_diff(case, r, cfg["nctx"], stats)
+        stats["assembled:" + ("agree" if bad is None else "DIFFER")] += 1
+        if bad is not None:
+            ctx, out = bad
+            rep.violation(f"assembleConstants=True: source semantics and real TEAL disagree: {out[:400]}",
+                          case.replay_dict(ctx, {"compare": out}))
     d.close()
     if st is not None and not st.ok:
         rep.violation("proof obligations no longer check: " + "; ".join(st.problems)[:600],
